@@ -49,3 +49,28 @@ pub use zlink_macros::ReplyError;
 
 #[doc(hidden)]
 pub mod test_utils;
+
+/// Verification hooks (`--cfg zlink_verif`).
+#[cfg(zlink_verif)]
+#[doc(hidden)]
+pub mod verif {
+    /// Result of [`to_slice`].
+    #[derive(Debug, PartialEq, Eq)]
+    pub enum ToSlice {
+        /// Number of bytes written.
+        Ok(usize),
+        /// The buffer was too small.
+        BufferTooSmall,
+        /// A map key was not string-like.
+        KeyMustBeAString,
+    }
+
+    /// Serialize `value` into `buf` with the built-in JSON serializer.
+    pub fn to_slice<T: serde::Serialize + ?Sized>(value: &T, buf: &mut [u8]) -> ToSlice {
+        match crate::json_ser::to_slice(value, buf) {
+            Ok(n) => ToSlice::Ok(n),
+            Err(crate::json_ser::Error::BufferTooSmall) => ToSlice::BufferTooSmall,
+            Err(crate::json_ser::Error::KeyMustBeAString) => ToSlice::KeyMustBeAString,
+        }
+    }
+}
